@@ -80,6 +80,7 @@ Definition comparator_start (l : loc) : Z :=
 
 Definition coll_lt (a b : feat) : bool :=
   if contains (floc a) (floc b) && negb (contains (floc b) (floc a)) then true else
+  if contains (floc b) (floc a) && negb (contains (floc a) (floc b)) then false else  (* mirrored shortcut: repair of finding F53 / C10-F46 *)
   let sa := comparator_start (floc a) in
   let sb := comparator_start (floc b) in
   (sa <? sb) || ((sa =? sb) && (- llen (floc a) <? - llen (floc b))).
